@@ -354,6 +354,20 @@ fn hist_step(d: &Date, op: &str) -> Result<Date, String> {
         "l" => c.last_julian_date().ok_or_else(|| "none".to_string()),
         "g" => c.first_gregorian_date().ok_or_else(|| "none".to_string()),
         "j" => Ok(c.at_jdn(d.julian_day_number())),
+        "L" => d.later().next().ok_or_else(|| "none".to_string()),
+        "E" => d.earlier().next().ok_or_else(|| "none".to_string()),
+        "A" => d.and_later().next().ok_or_else(|| "none".to_string()),
+        "a" => d.and_earlier().next().ok_or_else(|| "none".to_string()),
+        "Df" => match c.month_shape(d.year(), d.month()) {
+            Some(s) => s.dates().next().ok_or_else(|| "none".to_string()),
+            None => Err("noshape".into()),
+        },
+        "Dl" => match c.month_shape(d.year(), d.month()) {
+            Some(s) => s.dates().next_back().ok_or_else(|| "none".to_string()),
+            None => Err("noshape".into()),
+        },
+        "F" => chrono::NaiveDate::try_from(*d).map(Date::from).map_err(|_| "E".to_string()),
+        "f" => time::Date::try_from(*d).map(Date::from).map_err(|_| "E".to_string()),
         "u" => c
             .at_unix_time(julian::jdn2unix(d.julian_day_number()) + 43200)
             .map(|(x, _)| x)
